@@ -57,6 +57,11 @@ Proof.
     inversion H; subst. exact Hl.
 Qed.
 
+Lemma scr_oracle_bounded_lemma : forall k,
+  (forall f len f' bs, scr_read (os_read_of k) f len = (f', OsData bs) -> nlen bs <= len)
+  /\ (forall f d f' n, scr_write (os_write_of k) f d = (f', OsCount n) -> n <= nlen d).
+Proof. intros k. split; [apply scr_read_bounded|apply scr_write_bounded]. Qed.
+
 (* ------------------------------------------------------------------ B. std's loops on a scripted descriptor *)
 Lemma length_tl {A} (l : list A) : (length (tl l) <= length l)%nat.
 Proof. destruct l; cbn [tl length]; lia. Qed.
